@@ -69,7 +69,7 @@ struct Ctx {
     void begin_sub(uint32_t sub, double cpu_budget_s) {
         soft_errors = 0; soft_report.clear();
         if(sh) { sh->sub = sub; sh->kind = DK_NONE; sh->note[0] = 0; sh->in_sub = 1; }
-        arm(std::min(cpu_budget_s * budget_scale, cpu_budget_s + 240.0));   // replays run with scale 10: enough to tell a slow case from a hang, but never hours
+        arm(std::min(cpu_budget_s * budget_scale, cpu_budget_s * 2 + 30.0));   // replays run with scale 10 but at most twice the budget + 30 s: enough to tell a slow case from a hang, never hours
     }
     void end_sub() {
         arm(0);
